@@ -33,11 +33,21 @@ class H5State:
         self.root = z3.Int(fresh_name(tag + "_root"))
         self.mode = "r+"
         self.ops: list = []  # log of mutating operations (for frame reports)
+        self.universe: dict = {}  # str(node term) -> candidate member names (finite shape declared by a contract)
+        self.attr_universe: dict = {}
 
     def snapshot(self):
         s = H5State.__new__(H5State)
         s.links, s.attrs, s.dset, s.kind, s.next, s.root, s.mode, s.ops = self.links, self.attrs, self.dset, self.kind, self.next, self.root, self.mode, list(self.ops)
+        s.universe, s.attr_universe = self.universe, self.attr_universe
         return s
+
+    def declare_members(self, node, names):
+        """The node has no member outside `names` (shape bound declared by a contract)."""
+        self.universe[str(z3.simplify(node))] = list(names)
+
+    def declare_attrs(self, node, names):
+        self.attr_universe[str(z3.simplify(node))] = list(names)
 
     def link(self, node, name):
         return z3.Select(z3.Select(self.links, node), name)
@@ -112,6 +122,8 @@ def getitem(I, base, idx):
             I.raise_(KeyError)
         return Opaque(f"attr[{idx}]", term=st.attr(n, nm))
     st, n = base.st, base.node
+    if isinstance(idx, (slice, tuple)) or idx is Ellipsis:
+        return Opaque("dataset-values", term=z3.Select(st.dset, n))  # dataset[:] / dataset[()]
     nm = name_term(I, idx)
     child = st.link(n, nm)
     if not I.path.branch(child != 0, f"h5-link-present@{I.cur_line}"):
@@ -158,10 +170,37 @@ def delitem(I, base, idx):
 
 
 def list_keys(I, base):
+    if isinstance(base, H5Node) and not base.is_file and str(z3.simplify(base.node)) in base.st.universe:
+        return PList(members(I, base))
     if isinstance(base, H5Node) and base.is_file:
         theory.use("T-h5: a geoh5 file has exactly one top-level group (the project) -- precondition WF(a)")
         return PList([mk(I.path.ghost["h5_project_name"], "str")])
     raise Unsupported("listing the names of an arbitrary h5 group")
+
+
+def members(I, h):
+    """Present member names of a node, in the declared order (h5py iterates names in a fixed
+    order; the order among symbolic names is the declared one)."""
+    uni = h.st.universe.get(str(z3.simplify(h.node)))
+    if uni is None:
+        raise Unsupported("iteration over the members of an h5 node without a declared shape")
+    out = []
+    for name in uni:
+        nm = name_term(I, name)
+        if I.path.branch(h.st.link(h.node, nm) != 0, f"h5-member-present@{I.cur_line}"):
+            out.append(name)
+    return out
+
+
+def attr_members(I, a):
+    uni = a.h.st.attr_universe.get(str(z3.simplify(a.h.node)))
+    if uni is None:
+        raise Unsupported("iteration over the attributes of an h5 node without a declared shape")
+    out = []
+    for name in uni:
+        if I.path.branch(a.h.st.attr(a.h.node, name_term(I, name)) != 0, f"h5-attr-present@{I.cur_line}"):
+            out.append(name)
+    return out
 
 
 # ---- methods -----------------------------------------------------------------------------------
@@ -205,6 +244,23 @@ def h_create_dataset(I, self, name, *args, **kw):
     self.st.dset = z3.Store(self.st.dset, n, val_of(I, data))
     self.st.ops.append(("create_dataset", self.node, name, n))
     return H5Node(self.st, n)
+
+
+@_m("items")
+def h_items(I, self):
+    return PList([(n, H5Node(self.st, z3.simplify(self.st.link(self.node, name_term(I, n))))) for n in members(I, self)])
+
+
+@_m("keys")
+def h_keys(I, self):
+    return PList(members(I, self))
+
+
+def a_items(I, self):
+    return PList([(n, Opaque(f"attr[{n}]", term=self.h.st.attr(self.h.node, name_term(I, n)))) for n in attr_members(I, self)])
+
+
+METHODS[(H5Attrs, "items")] = a_items
 
 
 def _attrs_prop(I, self):
